@@ -74,6 +74,7 @@ pub fn blocks(thorough: bool) -> Vec<Block> {
         }
         b.push(Block::new(Universe::new("U_adv(A_gc)", A_GC, 3, 1, false), k1.clone(), "Lambda<=1 (no u,c)"));
         b.push(Block::new(u_prefix_counts(), vec![Cfg::new(R), Cfg::new(R | NE)], "r, r+ne"));
+        b.push(Block::new(u_corpus("U_large", verif_seed(), 12_000, &["a", "b", "c"], (12, 19), (5, 7)), vec![Cfg::new(0), Cfg::new(R), Cfg::new(NA | NE)], "{}, r, na+ne (tries of 60-130 states)"));
         b.push(Block::new(u_prefix_counts_unit(), vec![Cfg::new(R)], "r"));
         b.push(Block::new(Universe::new("U_adv(A_cons)", A_CONS, 1, 4, false), vec![Cfg::new(0), Cfg::new(I), Cfg::new(X), Cfg::new(G | I)], "{}, i, x, g+i"));
         b.push(Block::new(Universe::new("U_pairs{a,b}^<=5", &["a", "b"], 5, 2, false), vec![Cfg::new(R), Cfg::with(R, 1, 2), Cfg::new(R | E), Cfg::new(R | X)], "r, r(1,2), r+e, r+x"));
